@@ -16,6 +16,7 @@
     metadataInfer + matcherResolver (operand typing, HLAssemblerMatch patterns,
       HLAssemblerNormalize rewriting, requirement sets)                             matchLine, reqs
     symbolTagger / symbolResolver (label table after the removal, operand rewriting)  labelTable, resolve
+    templateResolver (processors sorted by name)                                     sortCps / Source.procs
     memComposer (cpdef romcode must name a section)                                  findSection
     CreateConnectingProcessor (opcode set sorted, R, N, M, O)                          mkArch
     Arch.Assembler per line                                                          Encode.asm
@@ -297,6 +298,17 @@ def mapE {α β : Type} (f : α → Except Err β) : List α → Except Err (Lis
     | .error e, _ => .error e
     | _, .error e => .error e
 
+/-- `templateResolver` sorts the processors by name (`sort.Sort(bmline.ByName(bi.cps))`): the
+    machine's processor `i` is the i-th `cpdef` in *name* order, not in source order -/
+def insertCp (c : CpDef) : List CpDef → List CpDef
+  | [] => [c]
+  | d :: ds => if c.name < d.name then c :: d :: ds else d :: insertCp c ds
+
+def sortCps (l : List CpDef) : List CpDef := l.foldr insertCp []
+
+/-- the processors of a source in machine order -/
+def Source.procs (src : Source) : List CpDef := sortCps src.cps
+
 /-- entryPoints + matcherResolver of one section, under its name -/
 def secPrep (fix : Bool) (src : Source) (s : Section) : Except Err (String × List RLine) :=
   match prepSection fix src.iomode s with
@@ -319,7 +331,7 @@ def assemble (src : Source) (fix : Bool := false) : Except Err BM :=
   | .error e => .error e
   | .ok ss =>
     -- memComposer: every cpdef names an existing section
-    match mapE (cpBody ss) src.cps with
+    match mapE (cpBody ss) src.procs with
     | .error e => .error e
     | .ok bodies =>
       -- Assembler2BondMachine: register size, then the processors, then their programs
@@ -332,6 +344,6 @@ def assemble (src : Source) (fix : Bool := false) : Except Err BM :=
         | .error e => .error e
         | .ok cps =>
           .ok { rsize := rsize, cps := cps, procs := List.range cps.length,
-                topo := mkTopo cps (pairs src.cps src.ioatts) }
+                topo := mkTopo cps (pairs src.procs src.ioatts) }
 
 end BMV.Basm
